@@ -11,7 +11,9 @@ RULE = ('all codes b B h H l L i I q Q e f d x prefixes > < = @ x counts 1..4 an
         'unpack vs struct.unpack; Array(code) vs struct/array.array, array.array input accepted only for matching kind and width; le/be/ne relations and byteswap (BitArray and Array) on whole-byte contents. '
         'byteswap with struct-style string patterns: every code x every spelling of the prefix (none @ = < >) x counts, mixed patterns, several records, bytes before / after, start / end / repeat: '
         'little-endian struct encoding -> big-endian one with the standard item sizes; format strings with a history (pp of every class and of Array, earlier pack / unpack / readlist / peeklist / byteswap, '
-        'list formats, Array constructors, callers editing returned lists; cold or warm caches) then compared with struct twice. non-trivial = multi-byte code; distinct by arguments')
+        'list formats, Array constructors, callers editing returned lists; cold or warm caches) then compared with struct twice. Multiplicative factors N* on multi-code struct tokens and on (nested) bracketed groups: pack / unpack / readlist / peeklist '
+        'vs struct with the format written out. Array.astype (and the equivalent constructions from the values) between all struct codes x prefixes and named int / float / bfloat formats, chains of conversions: '
+        'each stage equals the struct encoding of the values. non-trivial = multi-byte code; distinct by arguments')
 TRUSTED_BASE = ['translator tools/gen/dtypes.py for REPLACEMENTS_BE/LE/NE and PACK_CODE_SIZE (obligations checked by vm_compute over the generated tables)']
 ASSUMPTIONS = ['the real struct and array modules are the reference']
 
@@ -128,6 +130,39 @@ def gen_cases(rng, tier):
                'before': [rng.choice(HIST_CONSUMERS) for _ in range(rng.choice([1, 1, 2, 3, 5]))],
                'data': [rng.randrange(256) for _ in range(len(ref) * rng.choice([1, 2, 3]))]}
 
+    # multiplicative factors ('N*') in front of struct-style tokens with SEVERAL codes and in front of bracketed groups of them, nested, with counts inside the
+    # tokens, different byte-order characters side by side: 'N*X' stands for X written N times, so the reference is struct.pack of the format written out
+    for pre in '><=@':
+        for body, flat in (('hb', 'hb'), ('bH', 'bH'), ('2hB', 'hhB'), ('qe', 'qe'), ('Bl', 'Bl'), ('dbh', 'dbh')):
+            for n in (2, 3):
+                shape = rng.choice(['tok', 'tok', 'grp', 'grp_in', 'both'])
+                text = {'tok': f'{n}*{pre}{body}', 'grp': f'{n}*({pre}{body})', 'grp_in': f'({n}*{pre}{body})', 'both': f'{n}*(2*{pre}{body})'}[shape]
+                segs = [[pre, flat]] * (n * (2 if shape == 'both' else 1))
+                yield factor_case(rng, text, [text], segs)
+    for _ in range(160 if tier == 'quick' else 4000):
+        while True:
+            items = [rand_factor_item(rng, 0) for _ in range(rng.choice([1, 1, 1, 2, 2, 3]))]
+            if sum(len(fl) for _, sgs in items for _, fl in sgs) <= 48: break          # keep the cases small
+        sep = rng.choice([',', ',', ', ', ' , '])
+        yield factor_case(rng, sep.join(t for t, _ in items), [t for t, _ in items], [sg for _, sgs in items for sg in sgs])
+    # Array.astype: "Array with elements of new dtype, initialised from current Array" - the new Array is Array(new format, values of the old one), so its
+    # bytes are struct's encoding of those values. Every struct code with every prefix and every named integer / float format (uint int, be le ne, float
+    # bfloat, also widths struct does not have) as source and as destination, chains of conversions, sources with a past.
+    fl = [f for f in ASTYPE_FORMATS if fmt_spec(f)[0] in ('float', 'bfloat')]
+    for a in fl:                                                        # every ordered pair of 16-bit float formats, and each float format to / from them
+        for b in fl:
+            if a != b and (16 in (fmt_spec(a)[1], fmt_spec(b)[1])) and (tier == 'thorough' or fmt_spec(a)[1] == fmt_spec(b)[1] or rng.random() < 0.25):
+                yield astype_case(rng, [a, b])
+    for _ in range(200 if tier == 'quick' else 5000):
+        k = rng.choice([2, 2, 2, 3, 4])
+        r = rng.random()
+        pool = fl if r < 0.35 else [f for f in ASTYPE_FORMATS if f not in fl] if r < 0.6 else ASTYPE_FORMATS
+        chain = [rng.choice(pool) for _ in range(k)]
+        if rng.random() < 0.3:                                          # same kind and width, another byte order / another spelling
+            kd, w, _ = fmt_spec(chain[0]); same = [f for f in ASTYPE_FORMATS if fmt_spec(f)[1] == w and (fmt_spec(f)[0] in ('float', 'bfloat')) == (kd in ('float', 'bfloat'))]
+            chain[1] = rng.choice(same)
+        yield astype_case(rng, chain)
+
 SWAP_PREFIXES = ['', '@', '=', '<', '>']
 HIST_CONSUMERS = ['pp_bits', 'pp_bitarray', 'pp_cstream', 'pp_stream', 'pp_array', 'pp_array_own', 'pp_combo', 'pp_lsb0', 'pack', 'pack_other', 'pack_combo', 'pack_mult', 'pack_list',
                   'unpack', 'unpack_mut', 'unpack_list', 'readlist', 'readlist_mut', 'peeklist', 'byteswap', 'array_ctor', 'astype', 'dtype', 'read', 'repr_array',
@@ -164,6 +199,120 @@ def rand_body(rng, style=None):
     for _ in range(rng.randrange(1, 5)):
         ch = rng.choice(CODES); n = rng.choice([1, 1, 2, 3]); body += (str(n) if n > 1 else '') + ch; flat += ch * n
     return body, flat
+
+
+# ---- multiplicative factors -----------------------------------------------------------------------------------------------------------------------------
+def rand_factor_item(rng, depth):
+    """one comma-level item of a format: [N*]<struct token> or [N*](item, item, ..); -> (text, [[prefix, flat codes], ...] in the order the items are laid out)"""
+    star = lambda n: f'{n}{rng.choice(["*", "*", "*", " * ", "* "])}'
+    if depth < 2 and rng.random() < (0.35 if depth == 0 else 0.2):
+        inner = [rand_factor_item(rng, depth + 1) for _ in range(rng.choice([1, 2, 2, 3]))]
+        n = rng.choice([None, 1, 2, 2, 2, 3, 0])
+        text = ('' if n is None else star(n)) + '(' + rng.choice([',', ', ']).join(t for t, _ in inner) + ')'
+        return text, [sg for _, sgs in inner for sg in sgs] * (1 if n is None else n)
+    pre = rng.choice('><=@')
+    body, flat = rand_body(rng, rng.choice(['mix', 'mix', 'mix', 'samesize', 'count', 'double']))
+    n = rng.choice([None, 1, 2, 2, 2, 3, 3, 4, 0]) if len(flat) <= 6 else rng.choice([None, 2])
+    tok = pre + body
+    if len(flat) == 1 and rng.random() < 0.5:                 # the same item under the name the code stands for (struct documentation: kind, standard size, byte order)
+        nm, ln = expanded_name(pre, flat); tok = nm + rng.choice(['', ':']) + str(ln)
+    return ('' if n is None else star(n)) + tok, [[pre, flat]] * (1 if n is None else n)
+
+def factor_case(rng, fmt, items, segs):
+    vals = [okval(rng, ch) for _, flat in segs for ch in flat]
+    return {'op': 'factor', 'fmt': fmt, 'items': items, 'segs': segs, 'vals': vals, 'cls': rng.choice(CLASSES), 'extra': [rng.randrange(256) for _ in range(rng.choice([0, 0, 1, 3]))],
+            'cold': rng.random() < 0.3}
+
+def factor_ref(c):
+    """struct's bytes and values for the format written out: one struct.pack per token, '@' read as '=' (documented: standard sizes, no alignment)"""
+    out, back, i = b'', [], 0
+    for pre, flat in c['segs']:
+        f = pre.replace('@', '=') + flat
+        b = struct.pack(f, *c['vals'][i:i + len(flat)]); i += len(flat)
+        out += b; back += list(struct.unpack(f, b))
+    return out, [fhex(v) if isinstance(v, float) else v for v in back]
+
+# ---- Array.astype -----------------------------------------------------------------------------------------------------------------------------------------
+NATIVE = 'le' if sys.byteorder == 'little' else 'be'
+ASTYPE_FORMATS = ([p + ch for p in '<>=@' for ch in CODES] +
+                  ['uint8', 'int8', 'uint16', 'int16', 'uint32', 'int32', 'uint64', 'int64', 'uint12', 'int12', 'uint24', 'int24', 'uint5', 'int7', 'uint40'] +
+                  [k + e + str(w) for k in ('uint', 'int') for e in ('be', 'le', 'ne') for w in (8, 16, 24, 32, 64)] +
+                  ['float' + e + str(w) for e in ('', 'be', 'le', 'ne') for w in (16, 32, 64)] +
+                  ['bfloat', 'bfloat16', 'bfloatbe', 'bfloatle', 'bfloatne', 'bfloatbe16', 'bfloatle16', 'bfloatne16'])
+# exactly representable in bfloat16 AND in IEEE half precision (at most 8 significant bits, exponent within half's normal range), so that no conversion
+# between any two float formats rounds
+EXACT_FLOATS = [0.0, -0.0, 1.0, -1.0, 1.5, -2.0, 0.25, 96.0, -0.0078125, 3.0, -1.75, 0.5, 1.9921875, -255.0, 6.103515625e-05, 57344.0, -49152.0, 0.000244140625, float('inf'), float('-inf')]
+
+def fmt_spec(fmt):
+    """(kind, bits per item, byte order) of an Array format, from the documentation: struct codes have struct's standard sizes and the prefix's byte order
+    ('=' and '@' native); uint / int / float / bfloat are big-endian unless the name says le or ne; bfloat is 16 bits"""
+    m = re.fullmatch(r'([<>=@])([bBhHlLiIqQefd])', fmt)
+    if m:
+        ch = m.group(2)
+        return ('float' if ch in 'efd' else 'int' if ch.islower() else 'uint'), 8 * SIZES[ch], {'<': 'le', '>': 'be', '=': NATIVE, '@': NATIVE}[m.group(1)]
+    m = re.fullmatch(r'(uint|int|float|bfloat)(be|le|ne|)(\d*)', fmt)
+    return m.group(1), int(m.group(3) or 16), {'': 'be', 'be': 'be', 'le': 'le', 'ne': NATIVE}[m.group(2)]
+
+def enc_item(spec, v):
+    """the item's bits as a '01' string, or None when the value is outside what the format holds exactly (then nothing is claimed)"""
+    kd, w, order = spec
+    if kd in ('uint', 'int'):
+        if isinstance(v, float):
+            if v != v or v in (float('inf'), float('-inf')) or v != int(v): return None
+            v = int(v)
+        lo, hi = (0, (1 << w) - 1) if kd == 'uint' else (-(1 << (w - 1)), (1 << (w - 1)) - 1)
+        if not lo <= v <= hi: return None
+        bits = format(v & ((1 << w) - 1), f'0{w}b')
+    else:
+        try: v = float(v)
+        except OverflowError: return None
+        if v != v: return None
+        if kd == 'bfloat':
+            b = struct.pack('>f', v) if abs(v) < 3.4e38 or abs(v) == float('inf') else None
+            if b is None or b[2:] != b'\0\0': return None                       # only values bfloat holds exactly
+            b = b[:2]
+        else:
+            try: b = struct.pack('>' + {16: 'e', 32: 'f', 64: 'd'}[w], v)
+            except (OverflowError, struct.error): return None
+        bits = ''.join(format(x, '08b') for x in b)
+    if order == 'le': bits = ''.join(reversed([bits[i:i + 8] for i in range(0, w, 8)]))
+    return bits
+
+def dec_item(spec, bits):
+    kd, w, order = spec
+    if order == 'le': bits = ''.join(reversed([bits[i:i + 8] for i in range(0, w, 8)]))
+    u = int(bits, 2)
+    if kd == 'uint': return u
+    if kd == 'int': return u - (1 << w) if bits[0] == '1' else u
+    b = u.to_bytes(w // 8, 'big')
+    if kd == 'bfloat': return struct.unpack('>f', b + b'\0\0')[0]
+    return struct.unpack('>' + {16: 'e', 32: 'f', 64: 'd'}[w], b)[0]
+
+# how the next Array is made from the values of the current one: astype, or one of the documented equivalents
+ASTYPE_VIA = ['astype', 'astype', 'astype', 'astype', 'astype', 'ctor_list', 'ctor_iter', 'extend_list', 'extend_iter', 'setslice', 'append_each']
+
+def astype_case(rng, chain):
+    """values the whole chain of formats can hold (so that every stage has a reference), the destination given as a string or as a Dtype, the source made in
+    one of several ways and possibly carrying bits beyond its last item"""
+    specs = [fmt_spec(f) for f in chain]
+    n = rng.choice([0, 1, 2, 3, 3, 5, 8])
+    if all(sp[0] in ('float', 'bfloat') for sp in specs):
+        if any(sp[0] == 'bfloat' for sp in specs) or rng.random() < 0.3: pool = EXACT_FLOATS
+        else: pool = [rval(rng, {16: 'e', 32: 'f', 64: 'd'}[specs[0][1]]) for _ in range(8)] + [0.1, -0.0, 1e-7, 65504.0, 3.0e38, 5e-324]
+    else:
+        ints = [sp for sp in specs if sp[0] in ('uint', 'int')]
+        lo = max(0 if sp[0] == 'uint' else -(1 << (sp[1] - 1)) for sp in ints)
+        hi = min((1 << sp[1]) - 1 if sp[0] == 'uint' else (1 << (sp[1] - 1)) - 1 for sp in ints)
+        if any(sp[0] == 'bfloat' for sp in specs): lo, hi = max(lo, -255), min(hi, 255)          # integers every float format on the way holds exactly
+        elif any(sp[0] == 'float' and sp[1] == 16 for sp in specs): lo, hi = max(lo, -2048), min(hi, 2048)
+        elif any(sp[0] == 'float' and sp[1] == 32 for sp in specs): lo, hi = max(lo, -(1 << 24)), min(hi, 1 << 24)
+        elif any(sp[0] == 'float' for sp in specs): lo, hi = max(lo, -(1 << 53)), min(hi, 1 << 53)
+        pool = [lo, hi, 0, 1, min(hi, 2), max(lo, -1), lo + 1, hi - 1] + [rng.randrange(lo, hi + 1) for _ in range(4)]
+        if specs[0][0] in ('float', 'bfloat'): pool = [float(v) for v in pool]
+    vals = [rng.choice(pool) for _ in range(n)]
+    w0 = specs[0][1]
+    return {'op': 'astype', 'chain': chain, 'vals': vals, 'how': [rng.choice(['str', 'str', 'dtype']) for _ in chain[1:]], 'via': [rng.choice(ASTYPE_VIA) for _ in chain[1:]], 'src': rng.choice(['list', 'list', 'bytes', 'dtype_set', 'extend', 'swapped']),
+            'trail': rand_bits(rng, rng.choice([0, 0, 0, 1, min(7, w0 - 1), w0 - 1]), 'rand'), 'after': rng.choice(['byteswap', 'append', 'invert', 'none'])}
 
 def kind(c): return c['op']
 
@@ -318,6 +467,90 @@ def run_impl(c):
                 arr = tryv(lambda: (lambda a: [list(a.tobytes()), canon(a.tolist())])(Array(code0, vals)))
             return [out, arr, notes]
         return attempt(f)
+    if op == 'factor':
+        from bitstring import BitStream, ConstBitStream
+        canon = lambda vs: [fhex(v) if isinstance(v, float) else v for v in vs]
+        def tryv(fn):
+            try: return ['ok', fn()]
+            except Hang: raise
+            except Exception as e: return ['err', exn_name(e)]
+        def f():
+            if c['cold']: clear_caches()
+            fmt, vals = c['fmt'], c['vals']
+            ref, _ = factor_ref(c)
+            flatfmt = ','.join(pre + flat for pre, flat in c['segs'])
+            data = ref + bytes(c['extra'])
+            K = cls_of(c['cls'])
+            out = {}
+            p = tryv(lambda: pack(fmt, *vals))
+            out['pack'] = ['ok', [list(p[1].tobytes()), len(p[1])]] if p[0] == 'ok' else p
+            if p[0] == 'ok':
+                out['pack.unpack'] = tryv(lambda: canon(p[1].unpack(fmt)))
+                out['pack.unpack(written out)'] = tryv(lambda: canon(p[1].unpack(flatfmt)) if flatfmt else [])
+            out['pack(list of items)'] = tryv(lambda: (lambda q: [list(q.tobytes()), len(q)])(pack(list(c['items']), *vals)))
+            out['pack(written out)'] = tryv(lambda: (lambda q: [list(q.tobytes()), len(q)])(pack(flatfmt, *vals)))
+            out['unpack'] = tryv(lambda: canon(K(bytes=data).unpack(fmt)))
+            out['unpack(list of items)'] = tryv(lambda: canon(K(bytes=data).unpack(list(c['items']))))
+            def rd(S, how, lead):
+                st = S(bytes=data) if not lead else S('0b' + lead) + S(bytes=data)
+                st.pos = len(lead)
+                vs = canon(getattr(st, how)(fmt)); return [vs, st.pos]
+            out['ConstBitStream.readlist'] = tryv(lambda: rd(ConstBitStream, 'readlist', ''))
+            out['BitStream.readlist at bit 3'] = tryv(lambda: rd(BitStream, 'readlist', '101'))
+            out['BitStream.peeklist'] = tryv(lambda: rd(BitStream, 'peeklist', ''))
+            out['ConstBitStream.peeklist at bit 5'] = tryv(lambda: rd(ConstBitStream, 'peeklist', '11010'))
+            return out
+        return attempt(f)
+    if op == 'astype':
+        from bitstring import Dtype
+        canon = lambda vs: [fhex(v) if isinstance(v, float) else v for v in vs]
+        def f():
+            chain, vals = c['chain'], c['vals']
+            f0 = chain[0]
+            trail = Bits(bin=c['trail']) if c['trail'] else None
+            if c['src'] == 'list': a = Array(f0, vals, trail)
+            elif c['src'] == 'bytes': a = Array(f0, Array(f0, vals).tobytes(), trail) if len(Array(f0, vals).data) % 8 == 0 else Array(f0, vals, trail)
+            elif c['src'] == 'dtype_set':
+                a = Array('uint8', [], Array(f0, vals, trail).data); a.dtype = f0
+            elif c['src'] == 'extend':
+                a = Array(f0, vals[:1]); a.extend(vals[1:])
+                if trail is not None: a.data.append(trail)
+            else:                                                                       # the values written in the other byte order, then byteswap()
+                _, w, order = fmt_spec(f0)
+                if w % 8 or w == 8: a = Array(f0, vals, trail)
+                else:
+                    a = Array(f0, b''.join(bytes(Array(f0, [v]).tobytes()[::-1]) for v in vals), trail); a.byteswap()
+            stages = [[a.data.bin, len(a), a.itemsize]]
+            cur = a
+            for fm, how in zip(chain[1:], c['how']):
+                arg = fm
+                if how == 'dtype' and fm[0] not in '<>=@':
+                    m = re.fullmatch(r'([a-z]+?)(\d*)', fm); arg = Dtype(m.group(1), int(m.group(2))) if m.group(2) else Dtype(m.group(1))
+                prev_bin = cur.data.bin
+                via = c.get('via', ['astype'] * len(chain))[len(stages) - 1]
+                if via == 'astype': new = cur.astype(arg)
+                elif via == 'ctor_list': new = Array(arg, cur.tolist())
+                elif via == 'ctor_iter': new = Array(arg, iter(cur))
+                elif via == 'extend_list':
+                    new = Array(arg); new.extend(cur.tolist())
+                elif via == 'extend_iter':
+                    new = Array(arg); new.extend(v for v in cur)
+                elif via == 'setslice':
+                    new = Array(arg); new[:] = cur
+                else:
+                    new = Array(arg)
+                    for v in cur: new.append(v)
+                stages.append([new.data.bin, len(new), new.itemsize, canon(new.tolist()), cur.data.bin == prev_bin, type(new).__name__, new.trailing_bits.bin])
+                cur = new
+            # the new Array owns its data: editing it leaves the Arrays it came from alone
+            src_bin = a.data.bin
+            if c['after'] == 'byteswap':
+                if cur.itemsize % 8 == 0: cur.byteswap()
+                cur.data.invert()
+            elif c['after'] == 'append': cur.data.append('0b1'); cur.data.set(1)
+            elif c['after'] == 'invert': cur.data.invert()
+            return [stages, a.data.bin == src_bin]
+        return attempt(f)
     if op == 'endian':
         s = cls_of(c['cls'])(bin=c['bits'])
         def f():
@@ -443,6 +676,58 @@ def oracle(c, obs):
         if arr is not None:
             if arr[0] != 'ok' or arr[1][0] != exp or arr[1][1] != back:
                 return f"Array({c['pre'] + c['codes'][0]!r}, {c['vals']}) {hist}: tobytes / tolist gave {arr}; struct gives {bytes(exp).hex()} / {back}"
+        return None
+    if op == 'factor':
+        fmt = c['fmt']
+        if obs[0] != 'ok': return f"format {fmt!r}: raised {obs}"
+        exp, back = factor_ref(c)
+        flat = ','.join(pre + fl for pre, fl in c['segs'])
+        what = f"{fmt!r} (written out: {flat!r}) with values {c['vals']}"
+        o = obs[1]
+        for k in ('pack', 'pack(list of items)', 'pack(written out)'):
+            r = o[k]
+            if r[0] != 'ok': return f"{k} of {what} raised {r[1]}; struct.pack of the written-out format gives {exp.hex()}"
+            if r[1] != [list(exp), 8 * len(exp)]: return f"{k} of {what} gave {bytes(r[1][0]).hex()} ({r[1][1]} bits); struct.pack of the written-out format gives {exp.hex()}"
+        for k in ('pack.unpack', 'pack.unpack(written out)', 'unpack', 'unpack(list of items)'):
+            if o[k] != ['ok', back]: return f"{k} with {what} on {'the packed result' if k.startswith('pack') else c['cls'] + '(bytes=' + (exp + bytes(c['extra'])).hex() + ')'} gave {o[k]}; struct.unpack of the written-out format gives {back}"
+        for k, lead, moved in (('ConstBitStream.readlist', 0, True), ('BitStream.readlist at bit 3', 3, True), ('BitStream.peeklist', 0, False), ('ConstBitStream.peeklist at bit 5', 5, False)):
+            want = [back, lead + (8 * len(exp) if moved else 0)]
+            if o[k] != ['ok', want]: return f"{k} with {what} on struct's bytes {exp.hex()} (+{len(c['extra'])} more) gave {o[k]}; struct.unpack of the written-out format gives {want[0]}, position afterwards {want[1]}"
+        return None
+    if op == 'astype':
+        chain = c['chain']
+        desc = f"Array({chain[0]!r}, {c['vals']}" + (f", trailing_bits={c['trail']!r}" if c['trail'] else '') + f") [made by: {c['src']}]"
+        if obs[0] != 'ok':
+            specs = [fmt_spec(f) for f in chain]
+            vals = c['vals']
+            for sp in specs:                                   # nothing is claimed when a value is outside what a stage holds
+                bits = [enc_item(sp, v) for v in vals]
+                if any(b is None for b in bits): return None
+                vals = [dec_item(sp, b) for b in bits]
+            return f"{desc}" + ''.join(f".astype({f!r})" for f in chain[1:]) + f" raised {obs}"
+        stages, src_kept = obs[1]
+        vals = c['vals']
+        for i, (fm, stg) in enumerate(zip(chain, stages)):
+            sp = fmt_spec(fm)
+            bits = [enc_item(sp, v) for v in vals]
+            if any(b is None for b in bits): return None
+            exp = ''.join(bits)
+            got = stg[0]
+            if i == 0:
+                if got != exp + c['trail'] or stg[1] != len(vals) or stg[2] != sp[1]: return f"{desc}.data is {got} ({stg[1]} items of {stg[2]} bits); the encoding of the values is {exp} + trailing {c['trail']!r}"
+            else:
+                call = desc + ''.join(f".astype({f!r}{' as Dtype' if h == 'dtype' else ''})" + ('' if v == 'astype' else f'[done as {v}]') for f, h, v in zip(chain[1:i + 1], c['how'], c.get('via', ['astype'] * len(chain))))
+                sb = bytes(int(exp[j:j + 8], 2) for j in range(0, len(exp) - 7, 8)).hex()
+                if got != exp or stg[1] != len(vals) or stg[2] != sp[1] or stg[6] != '':
+                    gb = bytes(int(got[j:j + 8], 2) for j in range(0, len(got) - 7, 8)).hex()
+                    return (f"{call}: the new Array holds {gb} ({len(got)} bits, {stg[1]} items of {stg[2]} bits, trailing {stg[6]!r}); the values {vals} of the Array it was made from, "
+                            f"encoded as {fm!r} ({sp[0]}, {sp[1]} bits, {sp[2]}) as struct does, give {sb} ({len(exp)} bits)")
+                want = [fhex(v) if isinstance(v, float) else v for v in (dec_item(sp, b) for b in bits)]
+                if stg[3] != want: return f"{call}.tolist() is {stg[3]}; the bytes {sb} hold {want}"
+                if not stg[4]: return f"{call} changed the Array it was called on"
+                if stg[5] != 'Array': return f"{call} returned a {stg[5]}"
+            vals = [dec_item(sp, b) for b in bits]
+        if not src_kept: return f"{desc}: editing the result of astype ({c['after']}) changed the source Array"
         return None
     if op == 'endian':
         if obs[0] != 'ok': return f"endian {c} raised {obs}"
